@@ -230,7 +230,7 @@ theorem reachable_step {s s' : State} {e : Event} (h : Reachable s) (hs : step? 
       | some s1 => simp [h1] at h0 ⊢; exact ih s1 h0
   exact this es _ h
 
-theorem pick_step {s s' : State} {e : Event} (h : pick s = some (e, s')) : step? s e = some s' := by
+theorem pick_step {prio : List Key} {s s' : State} {e : Event} (h : pick prio s = some (e, s')) : step? s e = some s' := by
   unfold pick at h
   obtain ⟨e', _, he⟩ := List.exists_of_findSome?_eq_some h
   cases hs : step? s e' with
@@ -238,12 +238,12 @@ theorem pick_step {s s' : State} {e : Event} (h : pick s = some (e, s')) : step?
   | some s1 => simp [hs] at he; obtain ⟨rfl, rfl⟩ := he; exact hs
 
 /-- the scheduler of the correspondence driver only moves inside the reachable states -/
-theorem settle_reachable (n : Nat) {s : State} (h : Reachable s) : Reachable (settle n s).1 := by
+theorem settle_reachable (prio : List Key) (n : Nat) {s : State} (h : Reachable s) : Reachable (settle prio n s).1 := by
   induction n generalizing s with
   | zero => exact h
   | succ n ih =>
     simp only [settle]
-    cases hp : pick s with
+    cases hp : pick prio s with
     | none => exact h
     | some p => obtain ⟨e, s'⟩ := p; exact ih (reachable_step h (pick_step hp))
 
